@@ -1,10 +1,221 @@
 import MazeVerif.DriverOps.Util
+import MazeVerif.Model.Filters
 namespace MZ.Drv.C08
-open Lean MZ.Drv
+open Lean MZ.Drv MZ.Filt MZ.Gen
 
-/-- driver ops of property C08 (`"op": "C08.<name>"`) -/
-def handle (op : String) (_j : Json) : R Json := do
+/-! driver ops of property C08 (`"op": "C08.<name>"`)
+
+* `C08.seq` `{heap, start, mode: "seq"|"from_config", ops, np}` → `{steps: [...]}`: the model heap after EACH operation
+  (configs and dataset objects in full, maze objects only where new or changed), or the error of the first failing op.
+* `C08.table` → the generated filter table as the model sees it. -/
+
+def litOf (j : Json) : R PyLit :=
+  match j with
+  | .null => pure .none
+  | .bool b => pure (.bool b)
+  | .str s => pure (.str s)
+  | .num _ => do pure (.int (← j.getInt?))
+  | .obj _ => do
+    match (← getArr j "f") with
+    | [n, d] => pure (.float (← n.getInt?) (← d.getNat?))
+    | _ => throw "float literal: expected {f:[num,den]}"
+  | _ => throw "literal: unsupported JSON"
+
+def jLit : PyLit → Json
+  | .none => Json.null
+  | .bool b => Json.bool b
+  | .int i => jInt i
+  | .float n d => obj [("f", Json.arr #[jInt n, jNat d])]
+  | .str s => Json.str s
+
+def kwOf (j : Json) : R (List (String × PyLit)) := do
+  (← j.getArr?).toList.mapM fun kv => do
+    match (← kv.getArr?).toList with
+    | [k, v] => pure ((← k.getStr?), (← litOf v))
+    | _ => throw "kwargs: expected [[key, value], …]"
+
+def jKw (kw : List (String × PyLit)) : Json := jList (fun kv => Json.arr #[Json.str kv.1, jLit kv.2]) kw
+
+def recOf (j : Json) : R FilterRec := do
+  let args ← match optFld j "args" with
+    | none => pure none
+    | some a => do pure (some (← (← a.getArr?).toList.mapM litOf))
+  pure { name := (← getStr j "name"), args := args, kwargs := (← kwOf (← fld j "kwargs")) }
+
+def jRec (r : FilterRec) : Json :=
+  obj ([("name", Json.str r.name), ("kwargs", jKw r.kwargs)] ++
+       (match r.args with | some a => [("args", jList jLit a)] | none => []))
+
+def intRows (j : Json) : R (List (List Int)) := do (← j.getArr?).toList.mapM asIntList
+
+def metaValOf (j : Json) : R MetaVal := do
+  if let some s := optFld j "s" then return .scalar (← s.getStr?)
+  if let some s := optFld j "set" then return .set (← intRows s)
+  if let some s := optFld j "a1" then return .arr1 (← asIntList s)
+  if let some s := optFld j "a2" then return .arr2 (← intRows s)
+  return .other
+
+def jMetaVal : MetaVal → Json
+  | .scalar s => obj [("s", Json.str s)]
+  | .set cs => obj [("set", jList jInts cs)]
+  | .arr1 c => obj [("a1", jInts c)]
+  | .arr2 rows => obj [("a2", jList jInts rows)]
+  | .other => obj [("o", jNat 1)]
+
+def metaOf (j : Json) : R Meta := do
+  (← j.getArr?).toList.mapM fun kv => do
+    match (← kv.getArr?).toList with
+    | [k, v] => pure ((← k.getStr?), (← metaValOf v))
+    | _ => throw "meta: expected [[key, value], …]"
+
+def bitsOf (s : String) : List Bool := s.toList.map (· == '1')
+def jBits (l : List Bool) : Json := Json.str (String.ofList (l.map fun b => if b then '1' else '0'))
+
+def mazeOf (j : Json) : R Maze := do
+  let gm ← match optFld j "meta" with
+    | none => pure none
+    | some m => do pure (some (← metaOf m))
+  pure { shape := (← getNatList j "shape"), conn := bitsOf (← getStr j "conn"), startPos := (← getCell j "start"),
+         endPos := (← getCell j "end"), sol := (← getCells j "sol"), gmeta := gm }
+
+def jMaze (m : Maze) : Json :=
+  obj [("shape", jNats m.shape), ("conn", jBits m.conn), ("start", jCell m.startPos), ("end", jCell m.endPos),
+       ("sol", jCells m.sol),
+       ("meta", match m.gmeta with
+                | none => Json.null
+                | some kv => jList (fun p => Json.arr #[Json.str p.1, jMetaVal p.2]) kv)]
+
+def jVal : Val → Json
+  | .atom s => obj [("a", Json.str s)]
+  | .tup c => obj [("t", jInts c)]
+
+def valOf (j : Json) : R Val := do
+  if let some s := optFld j "a" then return .atom (← s.getStr?)
+  return .tup (← getIntList j "t")
+
+def jCollected (g : Collected) : Json :=
+  jList (fun kc => Json.arr #[Json.str kc.1, jList (fun vn => Json.arr #[jVal vn.1, jNat vn.2]) kc.2]) g
+
+def collectedOf (j : Json) : R Collected := do
+  (← j.getArr?).toList.mapM fun kc => do
+    match (← kc.getArr?).toList with
+    | [k, c] => do
+      let cs ← (← c.getArr?).toList.mapM fun vn => do
+        match (← vn.getArr?).toList with
+        | [v, n] => pure ((← valOf v), (← n.getNat?))
+        | _ => throw "counter entry"
+      pure ((← k.getStr?), cs)
+    | _ => throw "collected entry"
+
+def cfgOf (j : Json) : R Cfg := do
+  pure { base := (← getNat j "base"), nMazes := (← getNat j "n_mazes"), applied := (← (← getArr j "applied").mapM recOf) }
+
+def jCfg (c : Cfg) : Json := obj [("base", jNat c.base), ("n_mazes", jNat c.nMazes), ("applied", jList jRec c.applied)]
+
+def dsOf (j : Json) : R DS := do
+  let g ← match optFld j "gmc" with
+    | none => pure none
+    | some x => do pure (some (← collectedOf x))
+  pure { cfg := (← getNat j "cfg"), mazes := (← getNatList j "mazes"), gmc := g }
+
+def jDS (d : DS) : Json :=
+  obj [("cfg", jNat d.cfg), ("mazes", jNats d.mazes),
+       ("gmc", match d.gmc with | none => Json.null | some g => jCollected g)]
+
+def heapOf (j : Json) : R Heap := do
+  pure { cfgs := (← (← getArr j "cfgs").mapM cfgOf), mazes := (← (← getArr j "mazes").mapM mazeOf),
+         dsets := (← (← getArr j "dsets").mapM dsOf) }
+
+def errName : Err → String
+  | .ValueError => "ValueError" | .AssertionError => "AssertionError" | .IndexError => "IndexError"
+  | .TypeError => "TypeError" | .KeyError => "KeyError" | .other => "other"
+
+def errOf (s : String) : Err :=
+  match s with
+  | "ValueError" => .ValueError | "AssertionError" => .AssertionError | "IndexError" => .IndexError
+  | "TypeError" => .TypeError | "KeyError" => .KeyError | _ => .other
+
+/-- the `np.percentile` parameter as a finite table recorded by the harness from numpy itself; a miss is reported as
+    `Err.other` together with a flag in the reply -/
+def npOf (j : Json) : R (List (List Nat × PyLit × Except Err (Int × Nat))) := do
+  (← j.getArr?).toList.mapM fun e => do
+    let ls ← getNatList e "lengths"
+    let q ← litOf (← fld e "q")
+    match optFld e "err" with
+    | some s => pure (ls, q, .error (errOf (← s.getStr?)))
+    | none =>
+      match (← getArr e "val") with
+      | [n, d] => pure (ls, q, .ok ((← n.getInt?), (← d.getNat?)))
+      | _ => throw "np entry: val = [num, den]"
+
+def npFun (tbl : List (List Nat × PyLit × Except Err (Int × Nat))) : Percentile := fun ls q =>
+  match tbl.find? (fun e => e.1 == ls && e.2.1 == q) with
+  | some e => e.2.2
+  | none => .error .KeyError      -- table miss: the harness never sends KeyError as a numpy outcome
+
+/-- the small family of custom predicates the harness uses with `custom_maze_filter` -/
+def predOf (j : Json) : R (Maze → Bool) := do
+  if let some a := optFld j "lenmod" then
+    match (← asNatList a) with
+    | [k, r] => return fun m => m.sol.length % k == r
+    | _ => throw "lenmod: [k, r]"
+  if let some a := optFld j "startrow_le" then
+    let x ← a.getInt?
+    return fun m => decide (m.startPos.1 ≤ x)
+  throw "unknown custom predicate"
+
+def opOf (j : Json) : R Op := do
+  match (← getStr j "kind") with
+  | "reg" =>
+    pure (.reg { name := (← getStr j "name"), args := (← (← getArr j "args").mapM litOf), kwargs := (← kwOf (← fld j "kwargs")) })
+  | "custom" =>
+    pure (.custom (← getStr j "fname") (← predOf (← fld j "pred")) (← kwOf (← fld j "kwargs")))
+  | k => throw s!"unknown op kind {k}"
+
+/-- heap snapshot: configs and datasets in full, mazes only where they differ from `prev` -/
+def jHeapDelta (prev : List Maze) (h : Heap) : Json :=
+  let changed := (List.range h.mazes.length).filterMap fun a =>
+    match h.mazes[a]? with
+    | none => none
+    | some m => if prev[a]? == some m then none else some (Json.arr #[jNat a, jMaze m])
+  obj [("cfgs", jList jCfg h.cfgs), ("dsets", jList jDS h.dsets), ("n_mazes_objs", jNat h.mazes.length),
+       ("mazes", Json.arr changed.toArray)]
+
+def runSteps (np : Percentile) : Heap → Nat → List Op → List Json → List Json
+  | _, _, [], acc => acc.reverse
+  | h, d, op :: ops, acc =>
+    match applyOp np h d op with
+    | .error e => (obj [("ok", false), ("err", Json.str (errName e))] :: acc).reverse
+    | .ok (h1, d1) => runSteps np h1 d1 ops (obj [("ok", true), ("d", jNat d1), ("heap", jHeapDelta h.mazes h1)] :: acc)
+
+def jTable : Json :=
+  jList (fun e => Json.arr #[Json.str e.1, Json.str e.2.1,
+    jList (fun p => Json.arr #[Json.str p.1, match p.2 with | some v => obj [("d", jLit v)] | none => Json.null]) e.2.2]) filterTable
+
+def handle (op : String) (j : Json) : R Json := do
   match op with
+  | "C08.seq" =>
+    let h ← heapOf (← fld j "heap")
+    let d ← getNat j "start"
+    let np := npFun (← npOf (← fld j "np"))
+    match (← getStr j "mode") with
+    | "seq" =>
+      let ops ← (← getArr j "ops").mapM opOf
+      pure <| obj [("steps", Json.arr (runSteps np h d ops []).toArray)]
+    | "from_config" =>
+      match applyFromConfig np h d with
+      | .error e => pure <| obj [("steps", Json.arr #[obj [("ok", false), ("err", Json.str (errName e))]])]
+      | .ok (h1, d1) =>
+        -- also the by-hand run the theorem `C08_from_config_eq_by_hand` speaks about
+        let byHand := match clearApplied h d with
+          | none => Json.null
+          | some (h0, old) =>
+            match runSeq np h0 d (old.map fun r => Op.reg (callOfRec r)) with
+            | .error e => Json.str (errName e)
+            | .ok (h2, d2) => obj [("d", jNat d2), ("same_as_from_config", decide (d2 = d1 ∧ (updateSelfConfig h2 d2) = some h1))]
+        pure <| obj [("steps", Json.arr #[obj [("ok", true), ("d", jNat d1), ("heap", jHeapDelta h.mazes h1)]]), ("by_hand", byHand)]
+    | m => throw s!"unknown mode {m}"
+  | "C08.table" => pure jTable
   | _ => throw s!"unknown op {op}"
 
 end MZ.Drv.C08
